@@ -149,8 +149,19 @@ impl C11 {
         };
         let (g_res, g_reb) = (mk_gen(), mk_gen());
         let listing_order: Vec<IdS> = listing.iter().map(|o| o.id).collect();
+        // The listed finding: the snapshot lists orders by timestamp (ties in hash order), so it
+        // cannot carry a queue order that is not strictly increasing in timestamp. It applies
+        // only when the listing IS timestamp-sorted and the queue order could not have been
+        // expressed that way; a listing that deviates from a queue order which is strictly
+        // increasing in timestamp has another cause.
+        let ts_of: BTreeMap<IdS, u64> = listing.iter().map(|o| (o.id, o.ts)).collect();
+        let listing_sorted = listing.windows(2).all(|w| w[0].ts <= w[1].ts);
+        let queue_strictly_increasing = match &spec_order {
+            Some(s) => s.windows(2).all(|w| ts_of[&w[0]] < ts_of[&w[1]]),
+            None => true,
+        };
         let order_differs = match &spec_order {
-            Some(s) => *s != listing_order,
+            Some(s) => *s != listing_order && listing_sorted && !queue_strictly_increasing,
             None => false,
         };
         if order_differs {
